@@ -9,7 +9,7 @@ from ..cfacts import CUnit, dispatcher_of, call_args, callee, int_value, is_assi
 from ..core import AnalysisError, Report
 from ..linexpr import Env, c_ir, py_ir, to_lin
 from ..pycfg import path_to, run_typestate
-from ..pyfacts import Repo, dispatch_return, inline_pure_temps, temp_values, dotted, enclosing_handlers, handler_types, norm, walk_no_nested
+from ..pyfacts import eval_int_expr, Repo, dispatch_return, inline_pure_temps, temp_values, dotted, enclosing_handlers, handler_types, norm, walk_no_nested
 from ..spec import machine as M
 from ..steps import (CLoop, PyLoop, RUN_REL, READER_REL, c_assigned, c_mentions, event_nodes, guard_interval,
                      path_conditions, py_assigned, py_mentions)
@@ -1021,6 +1021,63 @@ def rule_ffi(rep: Report, repo: Repo, cu: CUnit) -> None:
 
 # ---------------------------------------------------------------- entry
 
+def rule_masks(rep: Report, repo: Repo) -> None:
+    rep.rule('C01.MASKS', 'the reference memory model keeps words and word addresses inside w bits: every mask of the Reader\'s word accessors that '
+             'is built from the memory width folds, for w = 8, 16, 32, 64, to what its place needs - 2^w - 1 where a word or a word address '
+             'is masked, w - 1 where the bit offset is taken from the bit address, 2^w - 1 with the one bit cleared in write_bit', 6)
+    n = 0
+    for q in ('Reader._get_memory_word', 'Reader._set_memory_word', 'Reader._bit_address_decompose', 'Reader.write_bit', 'Reader.get_word'):
+        if not repo.has_func(READER_REL, q):
+            continue
+        fn = repo.func(READER_REL, q)
+        params = [a.arg for a in fn.args.args if a.arg != 'self']
+        for x in walk_no_nested(fn):
+            pair = None
+            if isinstance(x, ast.BinOp) and isinstance(x.op, ast.BitAnd):
+                pair = (x.left, x.right)
+            elif isinstance(x, ast.AugAssign) and isinstance(x.op, ast.BitAnd):
+                pair = (x.target, x.value)
+            if pair is None:
+                continue
+            from ..pyfacts import resolve_names as _rn2
+            a, b = pair
+            a = _rn2(fn, a) if isinstance(a, ast.Name) and not isinstance(getattr(a, 'ctx', None), ast.Store) else a        # a named mask reads as the mask
+            b = _rn2(fn, b) if isinstance(b, ast.Name) else b
+            mentions = lambda e: any(norm(y) == 'self.memory_width' for y in ast.walk(e))
+            def foldable(e: ast.AST) -> bool:
+                try:
+                    eval_int_expr(e, {'self.memory_width': 16, 'bit_offset': 3})
+                    return True
+                except AnalysisError:
+                    return False
+            # the mask is the operand that is a function of the width alone
+            if mentions(b) and foldable(b) and not foldable(a):
+                other, mask = a, b
+            elif mentions(a) and foldable(a) and not foldable(b):
+                other, mask = b, a
+            else:
+                continue
+            n += 1
+            clear = any(isinstance(y, ast.Name) and y.id == 'bit_offset' for y in ast.walk(mask))
+            offset_role = isinstance(other, ast.Name) and other.id in params[:1] and q.endswith('_bit_address_decompose')
+            bad = []
+            for wv in (8, 16, 32, 64):
+                for bo in ((0, wv - 1) if clear else (0,)):
+                    try:
+                        got = eval_int_expr(mask, {'self.memory_width': wv, 'bit_offset': bo})
+                    except AnalysisError as ex:
+                        bad.append(str(ex))
+                        break
+                    want = ((1 << wv) - 1) & ~(1 << bo) if clear else (wv - 1 if offset_role else (1 << wv) - 1)
+                    if got != want:
+                        bad.append(f'w={wv}: mask {got:#x}, needed {want:#x}')
+            role = 'clear one bit of the word' if clear else 'bit offset' if offset_role else 'word / word address'
+            rep.check(not bad, 'C01.MASKS', f'{q.split(".")[-1]}:{norm(other)[:30]} & {norm(mask)[:40]}', bad[0] if bad else f'{role}: exact for the four widths',
+                      f'{READER_REL}:{getattr(x, "lineno", fn.lineno)} {q}', expected=role)
+    if n < 5:
+        raise AnalysisError(f'C01.MASKS: only {n} width-derived masks found in the Reader word accessors')
+
+
 def check(rep: Report, repo: Optional[Repo] = None) -> None:
     repo = repo or Repo()
     cu = CUnit(repo)
@@ -1039,12 +1096,13 @@ def check(rep: Report, repo: Optional[Repo] = None) -> None:
     rule_addr_wrap(rep, cu)
     rule_ffi(rep, repo, cu)
     rule_per_op_state(rep, all_loops)
+    rule_masks(rep, repo)
     rep.not_decided.append('equality of outputs/termination/op count for all images and inputs (value-level, needs execution)')
     rep.assumptions.append('role tables in fjverif/spec/machine.py name the ip / flip word / jump word / op counter of each loop')
 
 
 MANIFEST = dict(
-    technique='typestate + path-condition dataflow over Python/C CFGs; table agreement',
+    technique='exact width masks of the reference reader; typestate + path-condition dataflow over Python/C CFGs; table agreement',
     level_text='Static, structural: on every CFG path of all five step implementations (2 Python, 3 C incl. ring/flat '
                'clones) the per-op events occur in the machine-definition order; the IO/halt guards normalise to the '
                'reference intervals; flip expressions, unaligned-read formulas, width tables, termination codes and '
